@@ -6,6 +6,18 @@ CLAIMED = {
  "C01": dict(level="model_checking", ref="DESIGN.md 5 (C01)",
    text="Bounded exhaustive exploration of the real generator: every state of the registry drivers crossed with the settings neighbourhood is generated, parsed and interpreted, and for every registry id the Rust type the generator names must be bisimilar to the registry's SCALE shape (names, indices, primitive kinds, compact markers, structure, bit store/order).",
    note="Registries come from the SPM elaborator (compared entry-for-entry with real scale-info on the conformance corpus at every start); external core/alloc/codec paths are interpreted by a hand-written table; bounds per driver are in the evidence."),
+ "C02": dict(level="model_checking", ref="DESIGN.md 5 (C02)",
+   text="Bounded exhaustive exploration (D-arms x settings neighbourhood, D-generic, D-family after de-duplication, Polkadot full and all single-id closures): every emitted module is parsed with syn and checked by a name resolver and structural oracle - paths rooted at the types module resolve through the `use super::<root>` chain to an emitted item with matching arity, every generic parameter is used, names are unique per module, no cycle of generated types avoids heap indirection, every namespaced registry type has its item.",
+   note="rustc itself is the oracle only in the compile-farm tier; the quick tier decides with the interpreter's resolver, whose rules are those of Rust for the constructs the generator emits."),
+ "C03": dict(level="model_checking", ref="DESIGN.md 5 (C03)",
+   text="Bounded exhaustive exploration of same-path families (driver D-family: all families of <=2 (thorough 3) members over the twin alphabet, all member forms and lead orders; D-generic without the coincidence filter; Polkadot): on the raw registry generation must fail with the duplicate-path error or every id must be wire-faithful (independent shape semantics, not the implementation's types_equal); after ensure_unique_type_paths every id must be faithful.",
+   note="Coincident generic families (first instantiation coincides with a nested component / repeated argument / Box<T>) are recorded known findings, identified by the input class in the signature; the 'randomly beyond the bound' clause is not sampled."),
+ "C04": dict(level="model_checking", ref="DESIGN.md 5 (C04)",
+   text="Same exploration as C03 plus digit-suffixed neighbours: the registry after ensure_unique_type_paths must equal a reference result computed from the source program (same generalised source definition <=> same name; groups numbered 1..k by first appearance; nothing else touched), generation afterwards must not fail with the duplicate-path error, and a second run must change nothing.",
+   note="For Polkadot (no source) only the frame, sufficiency, idempotence and old-name-plus-k clauses are checked. The suffix collision Foo/Foo1 is a recorded known finding."),
+ "C05": dict(level="model_checking", ref="DESIGN.md 5 (C05)",
+   text="Bounded exhaustive exploration of generic source definitions (driver D-generic: 3 body forms x 5 parameter forms x all field lists of <=2 (thorough 3) fields over a 20-entry parameter-centred alphabet x all sets of <=2 (thorough 3) instantiations, filtered by coincidence-freeness): exactly one item per definition, generics = non-skipped parameters by declared position, every field type equal to the source field type under the documented normalisations (independent reference printer), marker names exactly the unused parameters, every instantiation resolves to that item with its own arguments.",
+   note="Source programs are SPM programs; their registries come from the elaborator (conformance-checked against real scale-info at every start)."),
  "C15": dict(level="model_checking", ref="DESIGN.md 5 (C15)",
    text="Exhaustive enumeration of the formatter's input space up to a length bound (all strings over the 9-symbol alphabet; all properly nested strings to a larger bound; macro-letter strings straddling the 32-character look-ahead; every description the crate produces for Polkadot and D-arms), each run through the real formatter and compared with the whitespace-erasure oracle and an independent indentation reader.",
    note="The 'randomly for longer strings' clause is not sampled (sampling is a different family); longer strings are covered by the structured families only. Termination = completion inside the wall budget."),
